@@ -50,7 +50,10 @@ macro_rules! from_feel_number_into {
     impl TryFrom<&FeelNumber> for $l {
       type Error = DmntkError;
       fn try_from(value: &FeelNumber) -> Result<Self, Self::Error> {
-        return value.to_string().parse::<$l>().map_err(|_| err_number_conversion_failed());
+        if !value.is_integer() {
+          return Err(err_number_conversion_failed());
+        }
+        return value.trunc().to_string().parse::<$l>().map_err(|_| err_number_conversion_failed());
       }
     }
   };
@@ -124,7 +127,7 @@ impl FeelNumber {
   }
   ///
   pub fn is_integer(&self) -> bool {
-    dec_is_integer(&self.0)
+    dec_is_zero(&dec_fract(&self.0))
   }
   ///
   pub fn is_one(&self) -> bool {
@@ -149,7 +152,7 @@ impl FeelNumber {
   }
   ///
   pub fn odd(&self) -> bool {
-    dec_is_integer(&self.0) && !dec_is_zero(&dec_remainder(&self.0, &DEC_TWO))
+    self.is_integer() && !dec_is_zero(&dec_remainder(&self.0, &DEC_TWO))
   }
   ///
   pub fn pow(&self, rhs: &FeelNumber) -> Option<Self> {
